@@ -33,12 +33,13 @@ Proof.
 Qed.
 Print Assumptions C16_names_distinct.
 
-(* ---- letter case.  The outcome depends on the command name only through its upper-cased
-   UTF-8 decoding; in particular every ASCII case variation of an ASCII name parses alike. *)
+(* ---- letter case.  [case_variant n n']: same length, bytewise equal up to the case of
+   ASCII letters (n may hold any bytes).  More generally the outcome depends on the command
+   name only through its upper-cased UTF-8 decoding. *)
 Theorem C16_name_case_insensitive :
-  forall n n' args, ascii n -> case_variant n n' ->
+  forall n n' args, case_variant n n' ->
     parse_frame (Some (EBulk n :: args)) = parse_frame (Some (EBulk n' :: args)).
-Proof. exact name_case_insensitive. Qed.
+Proof. exact name_case_insensitive_any. Qed.
 Print Assumptions C16_name_case_insensitive.
 
 Theorem C16_name_only_through_upper :
@@ -56,6 +57,13 @@ Theorem C16_parse_unparse :
     exists ps, unparse_k k c = Some ps /\ parse_cmd ps = POk c.
 Proof. exact parse_unparse_k. Qed.
 Print Assumptions C16_parse_unparse.
+
+Corollary C16_parse_unparse_any_keyword_case :
+  forall (k : bytes -> bytes), (forall w, case_variant w (k w)) ->
+  forall c, canonical c = true ->
+    exists ps, unparse_k k c = Some ps /\ parse_cmd ps = POk c.
+Proof. exact parse_unparse_any_case. Qed.
+Print Assumptions C16_parse_unparse_any_keyword_case.
 
 Corollary C16_parse_unparse_lower_case_keywords :
   forall c, canonical c = true ->
